@@ -151,6 +151,16 @@ def main():
                     p = os.path.join(tmpdir, "x.csv")
                     inv.to_csv(p, args[0], write_units=True)
                     res = h(open(p, "rb").read()); os.remove(p)
+                elif meth == "plot_bad":
+                    inv.plot(10.0, "s", yunits="bogus", npoints=2)
+                elif meth == "series_bad":
+                    inv.decay_time_series(10.0, "bogus", "linear", "num", npoints=2)
+                elif meth == "decay_bad":
+                    inv.decay(10.0, "bogus")
+                elif meth == "to_csv_bad":
+                    inv.to_csv(os.path.join(tmpdir, "bad.csv"), "bogus")
+                elif meth == "activities_bad":
+                    inv.activities("bogus")
                 elif meth == "add":
                     inv.add({k: (float.fromhex(v) if isinstance(v, str) and v.startswith(("0x", "-0x")) else v) for k, v in args[0].items()}, args[1])
                 elif meth == "subtract":
@@ -219,6 +229,8 @@ def main():
                          {k: float(v).hex() for k, v in pinv.cumulative_decays(float.fromhex(pr["t"]), "s").items()},
                          {k: float(v).hex() for k, v in pinv.activities("Ci").items()}]
         out.append({"violations": viol, "steps": nsteps, "results": results, "probe": probe_out})
+    for f in os.listdir(tmpdir):
+        os.remove(os.path.join(tmpdir, f))
     os.rmdir(tmpdir)
     json.dump(out, sys.stdout)
 main()
